@@ -75,6 +75,17 @@ def do_mgr(c):
     return {"obs": out, "skiv": (m.session_key + m.iv).hex()}
 
 
+def managers_of(dec):
+    """cached managers in insertion order: [key hex, material index (-1: cache not keyed by material), master_cnt, slave_cnt]"""
+    out = []
+    for k, m in dec.managers.items():
+        if isinstance(k, tuple):
+            out.append([bytes(k[0]).hex(), int(k[1]), m.master_cnt, m.slave_cnt])
+        else:
+            out.append([bytes(k).hex(), -1, m.master_cnt, m.slave_cnt])
+    return out
+
+
 def do_decryptor(c):
     dec = LinkLayerDecryptor(*[bytes.fromhex(k) for k in c["keys"]])
     for mat in c["mats"]:
@@ -95,7 +106,7 @@ def do_decryptor(c):
                 out.append({"k": 1, "d": bytes(res).hex(), "ok": bool(ok)})
             except Exception as e:  # noqa
                 out.append({"k": 3, "d": "build:" + type(e).__name__})
-    final = [[k.hex(), m.master_cnt, m.slave_cnt] for k, m in dec.managers.items()]
+    final = managers_of(dec)
     return {"obs": out, "final": final}
 
 
@@ -262,7 +273,7 @@ def do_multicapture(c):
         if captured:
             air.append(a.hex()); plain.append(hx); sid.append(si)
             sniff(a, obs)
-    final = [[k.hex(), m.master_cnt, m.slave_cnt] for k, m in dec.managers.items()]
+    final = managers_of(dec)
     return {"obs": obs, "final": final, "air": air, "plain": plain, "sid": sid,
             "materials": [list(t) for t in zip(dec.master_skd, dec.master_iv, dec.slave_skd, dec.slave_iv)]}
 
@@ -304,7 +315,7 @@ def do_decryptor_sniffer_way(c, air):
         sniff(bytes(p), setup_obs)
     for hx in air:
         sniff(bytes.fromhex(hx), out)
-    final = [[k.hex(), m.master_cnt, m.slave_cnt] for k, m in dec.managers.items()]
+    final = managers_of(dec)
     return {"obs": out, "final": final, "setup": setup_obs,
             "materials": [list(t) for t in zip(dec.master_skd, dec.master_iv, dec.slave_skd, dec.slave_iv)]}
 
